@@ -397,6 +397,21 @@ def resource_api(r):
         if tgt is not None and tgt.name.endswith("Request"):
             f = tgt.field.add()
             f.name, f.number, f.label, f.type, f.type_name = "vault_ref", 99, 1, 11, m.fqn
+    if r.random() < 0.7:
+        # references two and three messages below a request / a response, through a cycle of message types
+        api.main.resource_def("library.example.com/DeepTopic", ["deepTopics/{deep_topic}"])
+        api.main.resource_def("library.example.com/DeepSink", ["deepSinks/{deep_sink}/parts/{part}"])
+        pk = "." + api.main.proto.package
+        d1 = api.main.message("DeepOne"); d1.field("two", 1, pk + ".DeepTwo").field("label", 2, "string")
+        d2 = api.main.message("DeepTwo"); d2.field("sink", 1, "string", child_ref="library.example.com/DeepSink").field("three", 2, pk + ".DeepThree")
+        d3 = api.main.message("DeepThree"); d3.field("topic", 1, "string", ref="library.example.com/DeepTopic").field("back", 2, d1.fqn, repeated=True)
+        by_name = {"." + api.main.proto.package + "." + m.name: m for m in api.main.proto.message_type}
+        svc = r.choice(api.services).proto
+        cands = [t for meth in svc.method for t in (meth.input_type, meth.output_type) if t in by_name]
+        if cands:
+            tgt = by_name[r.choice(sorted(set(cands)))]
+            f = tgt.field.add()
+            f.name, f.number, f.label, f.type, f.type_name = "deep_one", 98, 1, 11, d1.fqn
     return api
 
 
